@@ -99,7 +99,7 @@ def revolute_default(h, first="RB", law="Spring", form="force", axis=2, seed=0):
 def cases(tier, seed):
     T = 120 if tier == "quick" else 600
     cs = []
-    pairings = ("PM-PM", "PM-RB", "F-RB") if tier == "quick" else ("PM-PM", "PM-RB", "RB-PM", "RB-RB", "F-RB", "RB-F")
+    pairings = ("PM-PM", "PM-RB", "RB-PM", "F-RB") if tier == "quick" else ("PM-PM", "PM-RB", "RB-PM", "RB-RB", "F-RB", "RB-F")
     laws = (("Spring", "force"), ("Spring", "compliance"), ("KelvinVoigt", "force"), ("KelvinVoigt", "compliance"), ("Maxwell", "force"))
     for p in pairings:
         for law, form in laws:
